@@ -51,10 +51,16 @@ def plan(tier, seed):
     B = 6
     for i in range(0, len(tasks), B):
         out.append(('split_batch', {'shapes': [t[1] for t in tasks[i:i + B]]}))
+    for init in ([], ['p.txt'], ['p.txt', 'q.txt']):
+        for cks in ([], [['AiAgent', 'c.txt', True]], [['Human', 'c.txt', False]], [['AiAgent', 'c.txt', True], ['Human', 'p.txt', False]], [['AiTab', 'q.txt', True]]):
+            for cf in ([], ['c.txt'], ['c.txt', 'p.txt']):
+                out.append(('post_commit_scope', {'initial': init, 'checkpoints': cks, 'commit_files': cf}))
     return out
 
 
 def install(M):
+    from harness import c08
+    c08.install(M)
     def committed(P, c, args, dt):
         P.events.append(('collect_committed_hunks',))
         return ok(clone_val(P, P.state['committed_hunks']))
@@ -154,8 +160,18 @@ def run_split(h, shape):
     # a second file with pending AI lines that this commit does not touch at all
     other = [mk_struct(M, LATTR, start_line=Sc(1, 32), end_line=Sc(2, 32), author_id=pystring('s1'), overrode=none())]
     attributions = MapV('hash', [[pystring('f.txt'), tup(VecV([]), VecV(lattrs))], [pystring('other.txt'), tup(VecV([]), VecV(other))]], 'map')
+    # every session that appears in the pending state has its prompt record (that is how the state is built)
+    PR = 'authorship::authorship_log::PromptRecord'
+    AGENT = 'authorship::working_log::AgentId'
+    sess = sorted({a for a in authors if a not in (None, 'human')} | {'s1'})
+    prompts = []
+    for sname in sess:
+        agent = mk_struct(M, AGENT, tool=pystring('t'), id=pystring('id-' + sname), model=pystring('m'))
+        rec = mk_struct(M, PR, agent_id=agent, human_author=none(), messages=VecV([]), total_additions=Sc(0, 32), total_deletions=Sc(0, 32),
+                        accepted_lines=Sc(0, 32), overriden_lines=Sc(0, 32), messages_url=none())
+        prompts.append([pystring(sname), MapV('btree', [[pystring(''), rec]], 'map')])
     va = mk_struct(M, VAS, repo=Opaque('Repository', None), base_commit=pystring('c0mmit'), attributions=attributions,
-                   file_contents=MapV('hash', [], 'map'), prompts=MapV('btree', [], 'map'), ts=Sc(1, 128), blame_start_commit=none())
+                   file_contents=MapV('hash', [], 'map'), prompts=MapV('btree', prompts, 'map'), ts=Sc(1, 128), blame_start_commit=none())
     h.inputs_struct = {'K': K, 'status': status, 'deleted': dele, 'authors': authors, 'merged_runs': merged, 'reversed': reversed_order}
     repo = Opaque('Repository', None)
     try:
@@ -245,6 +261,14 @@ def run_split(h, shape):
     h.require(oki, 'C04-initial-keeps-exactly-unstaged-ai-lines',
               'INITIAL does not keep exactly the working-tree numbers of the unstaged AI lines', known)
     h.require('human' not in got_init, 'C03-no-human-in-initial', 'INITIAL lists a human author')
+    # self-contained: every session named by the pending state / by the note has its prompt record next to it
+    ip = {concrete_bytes(as_bytes(k)).decode() for k, _ in field(M, initial, INIT, 'prompts').ent}
+    h.require(set(got_init) <= ip, 'C05-initial-carries-the-prompt-of-every-pending-session',
+              'INITIAL keeps lines of session(s) %r without their prompt record' % sorted(set(got_init) - ip), known)
+    meta = field(M, log, SER + '::AuthorshipLog', 'metadata')
+    np_ = {concrete_bytes(as_bytes(k)).decode() for k, _ in field(M, meta, SER + '::AuthorshipMetadata', 'prompts').ent}
+    h.require(set(got_note) <= np_, 'C05-note-carries-the-prompt-of-every-attested-session',
+              'the note attests lines of session(s) %r without their prompt record' % sorted(set(got_note) - np_), known)
     h.sample = h.witness()
 
 
@@ -254,13 +278,84 @@ def ob_split_batch(h, shape):
     run_split(h, shape['shapes'][k])
 
 
-OBLIGATIONS = {'split_batch': ob_split_batch, 'split': run_split}
+def ob_post_commit_scope(h, shape):
+    """which files the post-commit step looks at: every file INITIAL names and every file an AI checkpoint entry
+    names must be among the pathspecs handed to the split (a file left out silently loses its pending attribution)"""
+    from harness import c03, c08
+    P = h.P
+    M = P.M
+    CKPT, WLE, KIND, STATS = c03.CKPT, c03.WLE, c03.KIND, c03.STATS
+    wl = c03.mk_wl(M)
+    P.state['wl'] = wl
+    P.state['fs'] = {'/wl': 'DIR'}
+    P.state['commit_files'] = shape['commit_files']
+    init_files = shape['initial']
+    if init_files:
+        files = MapV('hash', [[pystring(f), VecV([mk_struct(M, LATTR, start_line=Sc(1, 32), end_line=Sc(2, 32), author_id=pystring('s1'), overrode=none())])] for f in init_files], 'map')
+        r = P.call_named(c03.PWL + '::write_initial_attributions', [Ref(Cell(wl)), files, MapV('hash', [], 'map')])
+        if r.var != 'Ok':
+            raise Unsupported('seeding INITIAL failed')
+    stats = Agg(STATS, [Sc(0, 32) for _ in M.src.struct_fields(STATS)])
+    cks = []
+    ai_entry_files = []
+    for i, (kind, f, has_attr) in enumerate(shape['checkpoints']):
+        la = [mk_struct(M, LATTR, start_line=Sc(1, 32), end_line=Sc(1, 32), author_id=pystring('s1' if kind != 'Human' else 'human'), overrode=none())] if has_attr else []
+        entry = mk_struct(M, WLE, file=pystring(f), blob_sha=pystring('b%d' % i), attributions=VecV([]), line_attributions=VecV(la))
+        cks.append(mk_struct(M, CKPT, kind=mk_enum(M, KIND, kind), diff=pystring('d'), author=pystring('x'), entries=VecV([entry]),
+                             timestamp=Sc(i, 64), transcript=none(), agent_id=none(), agent_metadata=none(), line_stats=stats,
+                             api_version=pystring('checkpoint/1.0.0'), git_ai_version=none()))
+        if kind != 'Human':
+            ai_entry_files.append(f)
+    v = VecV(cks)
+    r = P.call_named(c03.PWL + '::write_all_checkpoints', [Ref(Cell(wl)), SliceRef(v, 0, len(cks))])
+    if r.var != 'Ok':
+        raise Unsupported('seeding checkpoints failed')
+    P.state['va'] = Agg(VAS, [])
+    P.state['log'] = mk_struct(M, SER + '::AuthorshipLog', attestations=VecV([]),
+                               metadata=mk_struct(M, SER + '::AuthorshipMetadata', schema_version=pystring('authorship/3.0.0'), git_ai_version=none(),
+                                                  base_commit_sha=pystring('x'), prompts=MapV('btree', [], 'map')))
+    P.state['mode'] = 'Local'
+    P.state['logged_in'] = False
+    P.state['custom_api'] = False
+    P.state['cas_ok'] = True
+    P.state['default_url'] = 'https://usegitai.com'
+    h.inputs_struct = {'initial': init_files, 'checkpoints': shape['checkpoints'], 'commit_files': shape['commit_files']}
+    repo = Agg('git::repository::Repository', [])
+    try:
+        P.call_named('authorship::post_commit::post_commit', [Ref(Cell(repo)), some(pystring('parent')), pystring('c0mmit'), pystring('Human'), TRUE])
+    except c08.NoteWritten:
+        pass
+    except Panic as e:
+        h.panic('C04-post-commit-no-panic', e.msg)
+        return
+    ps = [e[1] for e in P.events if e[0] == 'split_pathspecs']
+    h.require(len(ps) == 1, 'C04-post-commit-reaches-the-split', 'post_commit did not reach the split of pending state')
+    if len(ps) != 1:
+        return
+    got = ps[0]
+    if got is None:
+        h.require(True, 'C04-every-pending-file-is-re-examined')      # no restriction at all
+    else:
+        missing = sorted((set(init_files) | set(ai_entry_files)) - set(got))
+        h.require(not missing, 'C04-every-pending-file-is-re-examined',
+                  'files %r carry pending AI attribution (INITIAL / AI checkpoint entry) but are not among the paths the post-commit step examines %r' % (missing, got))
+    h.sample = h.witness()
+
+
+OBLIGATIONS = {'split_batch': ob_split_batch, 'split': run_split, 'post_commit_scope': ob_post_commit_scope}
 
 
 # ---------------------------------------------------------------------------
 # native replay on a real repository
 
 def replay(v, native):
+    if 'commit_files' in v['inputs']:
+        r = native('c04_post_commit_scope', v['inputs'])
+        if 'panic' in r:
+            return {'reproduced': v['kind'] == 'panic', 'native': r}
+        if v['kind'] == 'panic':
+            return {'reproduced': False, 'native': r}
+        return {'reproduced': bool(r.get('lost')) if v['obligation'] == 'C04-every-pending-file-is-re-examined' else False, 'native': r}
     import os
     import subprocess
     import tempfile
@@ -349,6 +444,8 @@ def replay(v, native):
             'C03-no-human-in-initial': 'human' in gi,
             'C05-note-ranges-wellformed': not r.get('note_wellformed', True),
             'ok': not r.get('ok', True),
+            'C05-initial-carries-the-prompt-of-every-pending-session': not set(gi) <= set(r.get('initial_prompts', [])),
+            'C05-note-carries-the-prompt-of-every-attested-session': not set(gn) <= set(r.get('note_prompts', [])),
         }
         return {'reproduced': bool(bad.get(v['obligation'])), 'native': r, 'expected_note': exp_note, 'expected_initial': exp_init}
     finally:
